@@ -255,7 +255,16 @@ def scan_entry():
         txt.index("content = options.preprocessor(filename, content)") < txt.index("lexer.LexerTokenStream(filename, content)")
     # no loop in __init__
     ok = ok and not any(isinstance(n, (ast.For, ast.While)) for n in ast.walk(init))
-    facts["preprocessor_called_once"] = (ok, [])
+    # `content` is assigned exactly twice: the hook's return value as it is (no fallback, no post-processing), and the
+    # file's text when it is None
+    assigns = sorted(ast.unparse(n) for n in ast.walk(init)
+                     if isinstance(n, (ast.Assign, ast.AugAssign, ast.AnnAssign, ast.NamedExpr))
+                     and any(isinstance(t, ast.Name) and t.id == "content"
+                             for t in ast.walk(n.targets[0] if isinstance(n, ast.Assign) else n.target)))
+    ok = ok and assigns == ["content = fp.read()", "content = options.preprocessor(filename, content)"]
+    guards = [ast.unparse(n.test) for n in init.body if isinstance(n, ast.If)]
+    ok = ok and guards[:2] == ["options and options.preprocessor is not None", "content is None"]
+    facts["preprocessor_called_once"] = (ok, assigns + guards[:2])
     return facts
 
 
